@@ -86,7 +86,7 @@ TRANSLATED = {
  'C02': 'Bitboard::make / make_castle and the Move word setters/getters with the constants of constants.rs (rs_make_eq, rs_make_generated: no panic on any generated move of a well-formed board; rs_move_encode_eq, rs_move_decode_eq, rs_move_masks, rs_move_shifts)',
  'C03': 'Bitboard::unmake / unmake_castle / make / is_move_legal and the Move word (rs_unmake_eq, rs_make_eq, rs_unmake_generated, rs_is_move_legal_generated, rs_move_roundtrip)',
  'C04': 'magic_hash, MagicConfiguration::get_attacks (the unchecked access is undefined exactly when the model index is out of range), Magics::get_attacks (rs_magic_hash_eq, rs_magic_get_attacks_eq, rs_rook_attacks_eq, rs_bishop_attacks_eq)',
- 'C05': 'Bitboard::is_valid, is_current_in_check, is_in_check, _is_square_in_check (rs_is_square_in_check_eq, rs_is_in_check_eq, rs_is_current_in_check_eq, rs_is_valid_eq, rs_is_valid_after_make)',
+ 'C05': 'Bitboard::is_valid, is_current_in_check, is_in_check, _is_square_in_check (rs_is_square_in_check_eq, rs_is_in_check_eq, rs_is_current_in_check_eq, rs_is_valid_eq)',
  'C06': 'Bitboard::zobrist_xor (rs_zobrist_xor_eq, rs_zobrist_xor_generated: no panic on any generated move)',
  'C18': 'HashTable::new/clear/put/get/len with std HashMap/VecDeque mapped to an association list / list (rs_table_put_eq, rs_table_put_no_panic, rs_table_run_spec: every operation sequence gives the FIFO-map answers and never panics)',
  'C07': 'Search::calculate_max_thinking_time with its two getters (rs_calculate_max_thinking_time_eq)',
